@@ -48,6 +48,19 @@ def classify(m):
         return "value-level (C13 n/a part)", "CRC bit-flip search and size boundaries: round-trip values"
     if f == "src/au.rs":
         return "value-level (C14 n/a part)", "sample scaling, byte selection, header field values the decoder ignores"
+    DOC = {("src/lib.rs", range(80, 102)), ("src/stream_to_pdu.rs", range(1, 30)), ("src/to_text.rs", range(1, 24))}
+    if any(f == df and m["line"] in rg for df, rg in DOC):
+        return "doc example", "a line of a module-level doc example (not part of the library, not run by the lib tests)"
+    if ".read(false)" in old or "with_capacity" in old or "vec![0;" in old:
+        return "equivalent", "an extra open flag the sink never uses, a capacity hint, the fill byte of a buffer that is overwritten"
+    if "files_written" in old:
+        return "log/stats", "logging or timing statistics only"
+    if f in ("src/delay.rs", "src/skip.rs", "src/stream_to_pdu.rs", "src/to_text.rs", "src/vector_sink.rs", "src/rational_resampler.rs", "src/file_source.rs",
+             "src/burst_tagger.rs", "src/fft_stream.rs", "src/null_sink.rs", "src/tcp_source.rs", "src/file_sink.rs", "src/lib.rs", "src/block.rs", "src/pdu_writer.rs",
+             "src/vector_source.rs", "src/vec_to_stream.rs", "src/tee.rs"):
+        return "block-level value behaviour (C10 n/a) / paid-by-state", ("which samples, how many, in which phase a block emits (delay/skip arithmetic, burst bookkeeping, text formatting, "
+                "carry arithmetic, a wait amount that is merely larger or zero after progress): values; and deleted consume() calls on paths where the same "
+                "call changed block state earlier, which C08.R11/R12 accept as 'paid for'")
     if f == "rustradio_macros/src/lib.rs":
         return "equivalent / diagnostics", "attribute validation diagnostics, fast-path selection with identical behaviour, the position given to input tag copies (ignored on re-emit)"
     return "unclassified", ""
